@@ -95,7 +95,6 @@ def cands : List String → Val → R (List (Option Val))
   | [], d => .ok [some d]
   | p :: ps, d =>
     match d with
-    | .null => .ok []
     | .arr xs =>
       match pyInt? p with
       | none =>
@@ -115,7 +114,7 @@ def cands : List String → Val → R (List (Option Val))
       match ps with
       | [] => .ok [dget p fs]
       | _ :: _ => cands ps ((dget p fs).getD (.doc []))
-    | _ => .ok []
+    | _ => .ok [none]         -- no field inside null or a scalar: the key is missing here
 
 /-- a key the model follows: non-empty components only -/
 def keyOk (key : String) : Bool := (splitDots key).all (· ≠ "")
